@@ -75,14 +75,14 @@ def _stores(fn: ast.AST, name: str) -> list[ast.AST]:
         if isinstance(s, ast.Assign):
             for t in s.targets:
                 for n in ast.walk(t):
-                    if isinstance(n, ast.Name) and n.id == name:
+                    if isinstance(n, ast.Name) and n.id == name and isinstance(n.ctx, ast.Store):
                         out.append(s)
         elif isinstance(s, (ast.AnnAssign, ast.AugAssign)) and isinstance(s.target, ast.Name) and s.target.id == name:
             if not (isinstance(s, ast.AnnAssign) and s.value is None):
                 out.append(s)
         elif isinstance(s, (ast.For, ast.comprehension)):
             for n in ast.walk(s.target):
-                if isinstance(n, ast.Name) and n.id == name:
+                if isinstance(n, ast.Name) and n.id == name and isinstance(n.ctx, ast.Store):
                     out.append(s)
         elif isinstance(s, ast.NamedExpr) and s.target.id == name:
             out.append(s)
